@@ -160,7 +160,9 @@ def make_goal(spec, times, base=None):
 
     class G(base):
         def function(self, pr, m):
-            if path:
+            if spec.get("extra"):
+                es = [pr.extra_variable(v, m) for v in vars_]
+            elif path:
                 es = [pr.state(v) + o if o else pr.state(v) for v, o in zip(vars_, offs)]
             else:
                 es = [pr.state_at(v, tpoint, ensemble_member=m) + o if o else pr.state_at(v, tpoint, ensemble_member=m)
@@ -265,6 +267,47 @@ def problem_class(mode, extra_bases=()):
 
         def path_goals(self):
             return [g for g in self._all_goals() if g.spec["path"]] + super().path_goals()
+
+        # user-defined auxiliary variables b >= |f| (explicit two-sided absolute value, physical units):
+        # inst["aux"] = [{"name", "path", "var", "ti"}]
+        def _aux_syms(self):
+            if getattr(self, "_aux_cache", None) is None:
+                self._aux_cache = [(a, ca.MX.sym(a["name"])) for a in self.inst.get("aux", [])]
+            return self._aux_cache
+
+        @property
+        def path_variables(self):
+            return super().path_variables + [sym for a, sym in self._aux_syms() if a["path"]]
+
+        @property
+        def extra_variables(self):
+            return super().extra_variables + [sym for a, sym in self._aux_syms() if not a["path"]]
+
+        def bounds(self):
+            b = super().bounds()
+            for a, _ in self._aux_syms():
+                b[a["name"]] = (0.0, np.inf)
+            return b
+
+        def path_constraints(self, ensemble_member):
+            cs = super().path_constraints(ensemble_member)
+            for a, _ in self._aux_syms():
+                if a["path"]:
+                    f = self.state(a["var"])
+                    b = self.variable(a["name"])
+                    cs.append((b - f, 0.0, np.inf))
+                    cs.append((b + f, 0.0, np.inf))
+            return cs
+
+        def constraints(self, ensemble_member):
+            cs = super().constraints(ensemble_member)
+            for a, _ in self._aux_syms():
+                if not a["path"]:
+                    f = self.state_at(a["var"], self.inst["times"][a["ti"]], ensemble_member=ensemble_member)
+                    b = self.extra_variable(a["name"], ensemble_member)
+                    cs.append((b - f, 0.0, np.inf))
+                    cs.append((b + f, 0.0, np.inf))
+            return cs
 
         def _minabs(self, path):
             from rtctools.optimization.min_abs_goal_programming_mixin import MinAbsGoal
